@@ -41,6 +41,9 @@ struct Scenario {
   std::function<std::string()> outcome;
   // property tags for an access to a freed block (default "C12,C17"); "OBS" = observation only
   std::function<const char *(const void *, const BlockInfo &)> uaf_props;
+  // make every allocation / deallocation of a virtual thread a scheduling point (gives interleavings
+  // inside code that touches plain shared data between its atomic steps)
+  bool alloc_points = false;
   // fake std::thread::id handles
   unsigned long handles[kMaxThreads] = {1, 2, 3, 4, 5, 6, 7, 8, 9, 10, 11, 12};
 };
